@@ -264,14 +264,21 @@ theorem frame_safeToStanOut (T : Obj → Prop) (src ctx : Obj) (sec0 : Sec) (st 
       subst h1; subst h2
       simpa using Frame.trans hfb (frame_reportErrors _ _ _ _ _ .rendering)
 
+theorem frame_fieldToStan (T : Obj → Prop) (env : Env) (st : St) (b : Body) (src : Obj) :
+    Frame T src 0 st (fieldToStan env st b src).2 := by
+  unfold fieldToStan
+  split
+  · exact Frame.refl _ _ _ _
+  · rename_i e _
+    exact frame_reportErrors T src 0 st [toStanError e] .rendering
+
 theorem frame_formatFields (env : Env) (obj src : Obj) :
     ∀ (fs : List Field) (st : St), Frame (Only obj) src 0 st (formatFields env st obj src fs).2
   | [], st => Frame.refl _ _ _ _
   | f :: fs, st => by
     have hfmt : ∀ st0 : St, Frame (Only obj) src 0 st0
-        (formatFields env (safeToStanOut st0 (bodyToStan env f.body) src .broken true 0).2 obj src fs).2 :=
-      fun st0 => Frame.trans (frame_safeToStanOut _ src src 0 st0 _ .broken true 0 (fun h => by cases h) (fun _ => ⟨rfl, rfl⟩))
-        (frame_formatFields env obj src fs _)
+        (formatFields env (fieldToStan env st0 f.body src).2 obj src fs).2 :=
+      fun st0 => Frame.trans (frame_fieldToStan _ env st0 f.body src) (frame_formatFields env obj src fs _)
     unfold formatFields
     split
     · exact frame_formatFields env obj src fs _
@@ -477,6 +484,7 @@ def envCx : Env where
   mkTyped := fun _ _ => .returns []
   walk := fun _ => .nothing
   buildToc := fun _ _ => .empty
+  nodeText := fun _ => []
   isAttribute := fun _ => false
   annotation := fun _ => none
   constPd := fun _ => 5
@@ -706,16 +714,51 @@ def fieldsOf : Res DocOut → List Stan
   | .ok out => out.fields
   | .raises _ => []
 
-/-- witness for the open finding `field:render-failure-text-lost`: the body of the docstring renders, the body of
-its one field does not — the field is shown as the BROKEN placeholder (`Field.format`'s fallback is
-`lambda …: BROKEN`, not `format_docstring_fallback`), so the field's text is on the page nowhere; the failure
-itself is reported -/
-theorem field_failure_text_lost_counterexample :
+/-- since 46bdc37: the body of the docstring renders, the body of its one field does not — the field shows the
+text of its node tree as plain text, and the failure is reported -/
+theorem field_failure_shows_text :
     let env := { envCx with parser := fun _ _ _ => .returns (.user 1 [⟨.plain, none, .user 7, 3⟩]) [],
+                            toNode := fun _ => .returns, nodeText := fun _ => ['s', 'e', 'p'],
                             toStan := fun k => if k = 7 then .raises (.other 3) else .returns (.opaque k) }
     bodyOf (formatDocstring env stCx 0).1 = some (.opaque 1) ∧
-    fieldsOf (formatDocstring env stCx 0).1 = [.broken] ∧
+    fieldsOf (formatDocstring env stCx 0).1 = [.pre ['s', 'e', 'p']] ∧
     (formatDocstring env stCx 0).2.reports = [⟨0, 0, .exc (.other 3), 0⟩] := by
+  decide
+
+/-- in general: a field whose `to_stan` raises shows the text of its node tree whenever it has one with a
+visible character — never the BROKEN placeholder then — and the failure is recorded against the source -/
+theorem field_fallback_shows_text (env : Env) (st : St) (k : Nat) (src : Obj) (e : Exc)
+    (hs : env.toStan k = .raises e) (hn : env.toNode k = .returns)
+    (hv : (env.nodeText k).any (fun c => !pyIsSpace c) = true) :
+    (fieldToStan env st (.user k) src).1 = .pre (env.nodeText k) ∧
+    (0, src, Phase.rendering) ∈ (fieldToStan env st (.user k) src).2.reported := by
+  simp only [fieldToStan, bodyToStan, hs, fieldFallback, bodyToNode, hn, hv, if_true]
+  exact ⟨trivial, reportErrors_key _ _ _ _ _ (by simp)⟩
+
+/-- HISTORICAL witness (before 46bdc37, `fieldToStanOld`) for the finding `field:render-failure-text-lost`: the
+field was shown as the BROKEN placeholder, its text nowhere -/
+theorem field_failure_text_lost_old_counterexample :
+    let env := { envCx with toNode := fun _ => .returns, nodeText := fun _ => ['s', 'e', 'p'],
+                            toStan := fun _ => .raises (.other 3) }
+    (fieldToStanOld env stCx (.user 7) 0).1 = .broken ∧ (fieldToStan env stCx (.user 7) 0).1 = .pre ['s', 'e', 'p'] := by
+  decide
+
+/-! ### the reST role registry is restored after every parse (2732bb2) — abstract, tied by the oracle only -/
+
+theorem registry_restored {R α : Type} (reg : R) (parse : R → α × R) : (parseRestoring reg parse).2 = reg := rfl
+
+/-- whatever docstring A does to docutils' registry — also when its parse fails half-way — docstring B is read
+exactly as if it had been parsed alone -/
+theorem parse_independent_of_previous {R α β : Type} (reg : R) (pA : R → α × R) (pB : R → β × R) :
+    (parseRestoring (parseRestoring reg pA).2 pB).1 = (parseRestoring reg pB).1 := rfl
+
+/-- HISTORICAL (before 2732bb2, `parseLeaking`): a parse that leaves `default-role = literal` behind (registry 1)
+makes the next docstring read `name` as a literal (outcome 1) instead of a cross-reference (outcome 0) -/
+theorem registry_leak_old_counterexample :
+    let pA : Nat → Unit × Nat := fun _ => ((), 1)
+    let pB : Nat → Nat × Nat := fun r => (r, r)
+    (parseLeaking (parseLeaking 0 pA).2 pB).1 = 1 ∧ (parseLeaking 0 pB).1 = 0 ∧
+    (parseRestoring (parseRestoring 0 pA).2 pB).1 = 0 := by
   decide
 
 /-- the summary of a plain-text docstring whose `to_stan` raises (an XML-invalid character) -/
@@ -1009,7 +1052,11 @@ theorem rep_formatFields (env : Env) (obj src : Obj) :
   | [] => rep_id src _
   | f :: fs => by
     have ih := rep_formatFields env obj src fs
-    have hfmt := Rep.comp (rep_safeToStanOut src (bodyToStan env f.body) .broken (by decide)) ih
+    have hfield : Rep src .rendering (fun st => (fieldToStan env st f.body src).2) := by
+      cases hb : bodyToStan env f.body with
+      | returns s => simpa [fieldToStan, hb] using rep_id src .rendering
+      | raises e => simpa [fieldToStan, hb] using rep_reportErrors src [toStanError e] .rendering
+    have hfmt := Rep.comp hfield ih
     have hset := Rep.comp (rep_setPType src obj .rendering f.body) ih
     cases ht : f.tag
     · simpa [formatFields, ht] using hfmt
